@@ -3,6 +3,14 @@ import RotondaModel.Model.HttpPages
 
 case   := 'req|' api '|' routers '|' rib '|' traces '|' method '|' path '|' query '|' deps '|' world-tag (ignored)
         | 'idx|' (n (',' n)*)?                      -- extract_msg_indices of these message indices
+        | 'busy|' ('rm'|'pd') '|' close '|' again '|' ('b'|'i') '|' npeers '|' page (',' page)* '|' tag (ignored)
+            -- pages requested while the router's handler is parked on its gate by a Route Monitoring / Peer Down
+            -- (close = 1: its connection is closed while parked; again = 1: asked again right after the release;
+            -- 'b'/'i': the busy / the idle router connected first);
+            -- page := 'L' (list) | ('B' busy router | 'I' idle router) ('i'|'n'|'a') (('f'|'p') peer)?
+            -- output: 'busy during=' row ' again=' (row | '-') ' after=' row, row = per page its status, or 'ans'
+            -- (answered, any status) for a page of the busy router when its connection was closed meanwhile.
+            -- Every page asked for exists, a request that finds the router's state in use waits: all 200.
 hex    := 'x' (two hex digits)*
 routers:= '-' | router (';' router)*                (connection order)
 router := id ',' addr ',' routerId ',' tlvs ',' peers ',' sortvals
@@ -116,8 +124,16 @@ def showOut : Out → String
 
 def words (s : String) : List String := (s.splitOn " ").filter (· ≠ "")
 
+def busyRow (close : Bool) (pages : List String) : String :=
+  ",".intercalate (pages.map fun t => if close && t.startsWith "B" then "ans" else "200")
+
 def runCase (v : Variant) (line : String) : String :=
   match line.splitOn "|" with
+  | ["busy", park, close, again, first, _npeers, pages, _tag] =>
+    if (park == "rm" || park == "pd") && (first == "b" || first == "i") && (close == "0" || close == "1") && (again == "0" || again == "1") && pages != "" then
+      let row := busyRow (close == "1") (pages.splitOn ",")
+      s!"busy during={row} again={if again == "1" then row else "-"} after={row}"
+    else "bad-case"
   | ["idx", ns] =>
     match (listOf ns ",").mapM (·.toNat?) with
     | some l => extractMsgIndices l
